@@ -603,6 +603,12 @@ func (e *Engine) model(st *state, fr *frame, in ssa.CallInstruction, fn *ssa.Fun
 			ord = ""
 		}
 		st2 := st.clone()
+		if st.exhausted[r.Key()] && sz != 0 {
+			// an earlier read on this buffer already failed or came back short: nothing is left to read
+			ev2 := e.addEvent(st2, fr, &Event{Kind: EvReadInt, Buf: r, IntType: p.Elem(), Order: ord, Dst: data, Size: mkInt(sz), Failed: true}, in)
+			st2.mem[data.Key()] = memEntry{Addr: data, V: &Val{Op: "unknown", ID: ev2.ID, Name: "failed-read", Type: p.Elem()}}
+			return []callRes{{st: st2, val: nonnil(fmt.Sprintf("binary.Read#%d", ev2.ID))}}, true
+		}
 		ev := e.addEvent(st, fr, &Event{Kind: EvReadInt, Buf: r, IntType: p.Elem(), Order: ord, Dst: data, Size: mkInt(sz)}, in)
 		st.mem[data.Key()] = memEntry{Addr: data, V: &Val{Op: "wire", ID: ev.ID, Type: p.Elem()}}
 		if rt := addrRoot(data); rt == nil || rt.Op != "alloc" {
@@ -610,6 +616,7 @@ func (e *Engine) model(st *state, fr *frame, in ssa.CallInstruction, fn *ssa.Fun
 		}
 		ev2 := e.addEvent(st2, fr, &Event{Kind: EvReadInt, Buf: r, IntType: p.Elem(), Order: ord, Dst: data, Size: mkInt(sz), Failed: true}, in)
 		st2.mem[data.Key()] = memEntry{Addr: data, V: &Val{Op: "unknown", ID: ev2.ID, Name: "failed-read", Type: p.Elem()}}
+		markExhausted(st2, r)
 		return []callRes{{st: st, val: mkNil(errT)}, {st: st2, val: nonnil(fmt.Sprintf("binary.Read#%d", ev2.ID))}}, true
 	case "io.ReadFull":
 		r, b := stripIface(args[0]), args[1]
@@ -618,10 +625,16 @@ func (e *Engine) model(st *state, fr *frame, in ssa.CallInstruction, fn *ssa.Fun
 		}
 		n := mkLen(b)
 		st2 := st.clone()
+		if z, isC := n.Int64(); st.exhausted[r.Key()] && !(isC && z == 0) {
+			ev2 := e.addEvent(st2, fr, &Event{Kind: EvReadBytes, Mode: "ReadFull", Buf: r, Dst: b, Size: n, Failed: true}, in)
+			e.setContent(st2, b, &Val{Op: "unknown", ID: ev2.ID, Name: "partial-read", Type: b.Type})
+			return []callRes{{st: st2, val: tuple(&Val{Op: "short", ID: ev2.ID, Args: []*Val{n}, Type: intT}, nonnil(fmt.Sprintf("io.ReadFull#%d", ev2.ID)))}}, true
+		}
 		ev := e.addEvent(st, fr, &Event{Kind: EvReadBytes, Mode: "ReadFull", Buf: r, Dst: b, Size: n}, in)
 		e.setContent(st, b, &Val{Op: "wire", ID: ev.ID, Type: b.Type, Args: []*Val{n}})
 		ev2 := e.addEvent(st2, fr, &Event{Kind: EvReadBytes, Mode: "ReadFull", Buf: r, Dst: b, Size: n, Failed: true}, in)
 		e.setContent(st2, b, &Val{Op: "unknown", ID: ev2.ID, Name: "partial-read", Type: b.Type})
+		markExhausted(st2, r)
 		return []callRes{
 			{st: st, val: tuple(n, mkNil(errT))},
 			{st: st2, val: tuple(&Val{Op: "short", ID: ev2.ID, Args: []*Val{n}, Type: intT}, nonnil(fmt.Sprintf("io.ReadFull#%d", ev2.ID)))},
@@ -630,16 +643,29 @@ func (e *Engine) model(st *state, fr *frame, in ssa.CallInstruction, fn *ssa.Fun
 		r, b := args[0], args[1]
 		n := mkLen(b)
 		st2 := st.clone()
+		if z, isC := n.Int64(); st.exhausted[r.Key()] && !(isC && z == 0) {
+			// the buffer is empty: Read returns (0, io.EOF)
+			ev2 := e.addEvent(st2, fr, &Event{Kind: EvReadBytes, Mode: "Read", Buf: r, Dst: b, Size: n, Failed: true, Short: true}, in)
+			e.setContent(st2, b, &Val{Op: "unknown", ID: ev2.ID, Name: "partial-read", Type: b.Type})
+			return []callRes{{st: st2, val: tuple(&Val{Op: "short", ID: ev2.ID, Args: []*Val{n}, Type: intT}, nonnil("io.EOF"))}}, true
+		}
 		ev := e.addEvent(st, fr, &Event{Kind: EvReadBytes, Mode: "Read", Buf: r, Dst: b, Size: n}, in)
 		e.setContent(st, b, &Val{Op: "wire", ID: ev.ID, Type: b.Type, Args: []*Val{n}})
 		ev2 := e.addEvent(st2, fr, &Event{Kind: EvReadBytes, Mode: "Read", Buf: r, Dst: b, Size: n, Failed: true, Short: true}, in)
 		e.setContent(st2, b, &Val{Op: "unknown", ID: ev2.ID, Name: "partial-read", Type: b.Type})
+		markExhausted(st2, r)
 		return []callRes{
 			{st: st, val: tuple(n, mkNil(errT))},
 			{st: st2, val: tuple(&Val{Op: "short", ID: ev2.ID, Args: []*Val{n}, Type: intT}, &Val{Op: "unknown", ID: ev2.ID, Name: "maybe-EOF", Type: errT})},
 		}, true
 	case "(*bytes.Buffer).Write", "(*bytes.Buffer).WriteString":
 		src := e.contentOf(st, args[1])
+		// a number staged by hand: PutUintN into a local array, or AppendUintN(nil, v)
+		if ib := stagedInt(src); ib != nil {
+			sz, _ := fixedSize(ib.Type)
+			e.addEvent(st, fr, &Event{Kind: EvWriteInt, Buf: args[0], IntType: ib.Type, Order: ib.Name, Src: ib.Args[0], Size: mkInt(sz)}, in)
+			return one(st, tuple(mkInt(sz), mkNil(errT))), true
+		}
 		n := mkLen(src)
 		e.addEvent(st, fr, &Event{Kind: EvWriteBytes, Buf: args[0], Src: src, Size: n}, in)
 		return one(st, tuple(n, mkNil(errT))), true
@@ -702,10 +728,22 @@ func (e *Engine) model(st *state, fr *frame, in ssa.CallInstruction, fn *ssa.Fun
 			}
 			// PutUintN panics when the slice is shorter than N
 			e.addEvent(st, fr, &Event{Kind: EvPanicSite, Mode: "putuint", Args: []*Val{args[1], mkInt(sz)}}, in)
+			if buf == nil {
+				// staging a number in local memory (to be appended with buf.Write): remember what the bytes are
+				if n, isC := affOf(mkLen(args[1])).IsConst(); isC && n == sz {
+					e.setContent(st, args[1], &Val{Op: "intbytes", Name: ord, Args: []*Val{args[2]}, Type: it})
+					return one(st, nil), true
+				}
+			}
 			e.addEvent(st, fr, &Event{Kind: EvPatch, Buf: bufv, IntType: it, Order: ord, Dst: args[1], Src: args[2], Size: mkInt(sz)}, in)
 			return one(st, nil), true
 		}
-		return one(st, e.opaqueResult(fn, name, args, 0)), true
+		// reading / appending methods: pure; the receiver (an empty struct) is dropped, slices are taken by content
+		var cargs []*Val
+		for _, a := range args[1:] {
+			cargs = append(cargs, e.contentOf(st, a))
+		}
+		return one(st, e.opaqueResult(fn, name, cargs, 0)), true
 	}
 	// pure library functions
 	if pkg := fn.Pkg; pkg != nil && purePkgs[pkg.Pkg.Path()] && !e.P.InModule(fn) {
@@ -781,6 +819,9 @@ func mergePureForks(pre *state, outs []*outcome, startID int) []*outcome {
 		}
 		var b strings.Builder
 		for _, ev := range o.st.events {
+			if ev.Kind == EvPanicSite || (ev.Kind == EvRep && !altHasWire(ev) && effectFree(ev)) {
+				continue // pure computation (bounds-checked scans): identity does not matter, panic sites are united below
+			}
 			fmt.Fprintf(&b, "%p,", ev)
 		}
 		b.WriteString("|")
@@ -839,6 +880,21 @@ func mergePureForks(pre *state, outs []*outcome, startID int) []*outcome {
 		for k, v := range pre.facts {
 			st2.facts[k] = v
 		}
+		// unite the panic sites (and effect-free loops) the alternatives passed
+		seenSite := map[string]bool{}
+		for _, ev := range st2.events {
+			if ev.Kind == EvPanicSite || ev.Kind == EvRep {
+				seenSite[siteOf(ev)] = true
+			}
+		}
+		for _, o := range b.outs[1:] {
+			for _, ev := range o.st.events {
+				if (ev.Kind == EvPanicSite || (ev.Kind == EvRep && !altHasWire(ev) && effectFree(ev))) && !seenSite[siteOf(ev)] {
+					seenSite[siteOf(ev)] = true
+					st2.events = append(st2.events, ev)
+				}
+			}
+		}
 		o0.st = st2
 		rets := make([]*Val, len(o0.ret))
 		for i := range rets {
@@ -873,4 +929,71 @@ func isNilable(t types.Type) bool {
 func isBoolType(t types.Type) bool {
 	b, ok := t.Underlying().(*types.Basic)
 	return ok && b.Info()&types.IsBoolean != 0
+}
+
+// effectFree: a loop whose iterations have no effect besides possible panic sites.
+func effectFree(rep *Event) bool {
+	ok := true
+	for _, arm := range rep.Iter {
+		walkEvents(arm.Events, func(e *Event, _ int) {
+			if e.Kind != EvPanicSite {
+				ok = false
+			}
+		})
+	}
+	return ok
+}
+
+func siteOf(ev *Event) string {
+	k := fmt.Sprintf("%d:%p:%s:%v", ev.Kind, ev.Instr, ev.Mode, ev.Partial)
+	for _, a := range ev.Args {
+		k += ":" + a.Key()
+	}
+	return k
+}
+
+func markExhausted(st *state, buf *Val) {
+	if st.exhausted == nil {
+		st.exhausted = map[string]bool{}
+	}
+	st.exhausted[buf.Key()] = true
+}
+
+// stagedInt: the byte content is one fixed-size number rendered in a known byte order.
+func stagedInt(src *Val) *Val {
+	src = stripCT(src)
+	if src == nil {
+		return nil
+	}
+	if src.Op == "intbytes" {
+		return src
+	}
+	if src.Op == "call" && len(src.Args) == 2 {
+		for _, ord := range []struct{ pfx, o string }{{"(encoding/binary.bigEndian).AppendUint", "BE"}, {"(encoding/binary.littleEndian).AppendUint", "LE"}} {
+			if strings.HasPrefix(src.Name, ord.pfx) {
+				first := stripCT(src.Args[0])
+				if !(first.IsNilConst() || (first.Op == "makeslice" && isZero(first.Args[0])) || (first.Op == "slice" && first.Args[2] != nil && isZero(first.Args[2]))) {
+					return nil
+				}
+				var it types.Type
+				switch strings.TrimPrefix(src.Name, ord.pfx) {
+				case "16":
+					it = types.Typ[types.Uint16]
+				case "32":
+					it = types.Typ[types.Uint32]
+				case "64":
+					it = types.Typ[types.Uint64]
+				default:
+					return nil
+				}
+				return &Val{Op: "intbytes", Name: ord.o, Args: []*Val{src.Args[1]}, Type: it}
+			}
+		}
+	}
+	return nil
+}
+
+func isZero(v *Val) bool {
+	n, ok := v.Int64()
+	return ok && n == 0
 }
